@@ -133,6 +133,10 @@ class Agg:
 
 def _execute_guarded(mod, sc):
     """Run one scenario; exceptions escaping the executor are harness errors."""
+    dbg = os.environ.get("VERIF_DEBUG_LAST")
+    if dbg:
+        with open(dbg, "w") as f:
+            f.write(jdump(sc))
     return mod.execute(sc)
 
 
